@@ -270,6 +270,27 @@ theorem c03_mass_parameter_hybrid (i : Nat) (h : i < ms.length) :
     (hybridMassParams G m0 ms)[i]? = some (G * m0) ∧ (hybridMassParams G m0 ms).length = ms.length := by
   simp [hybridMassParams, h]
 
+/-- democratic-heliocentric jump step of MERCURIUS and TRACE (one component): every particle i ≥ 1 is
+    shifted by `dt/m0 · Σ m_k v_k`, the sum running over the **active** particles 1 … N_active−1 when
+    `testparticle_type == 0` and over all particles when it is 1. -/
+theorem c03_hybrid_jump_shift (t1 : Bool) (nact : Nat) (dt : K) (mv : List (K × K)) (xs : List K) :
+    mercuriusJump t1 nact dt m0 mv xs
+      = xs.map (fun x => x + dt * ((((if t1 then mv else mv.take nact).map (fun p => p.1 * p.2)).sum) / m0)) ∧
+    traceJump t1 nact dt m0 mv xs
+      = xs.map (fun x => x + (((if t1 then mv else mv.take nact).map (fun p => p.1 * p.2)).sum) * (dt / m0)) := by
+  simp only [mercuriusJump, traceJump, jumpSources, jumpSum_eq, sc_zero, zero_add, sc_hadd, sc_hmul, sc_hdiv]
+  cases t1 <;> simp
+
+/-- hence a lone type-0 test particle (N_active = 1) is not moved by the jump step **whatever its mass**:
+    together with `c03_mass_parameter_hybrid` (M = G·m0) and the absence of other bodies in the
+    interaction step, one MERCURIUS / TRACE step of a star plus one type-0 test particle is the Kepler
+    step with μ = G·m0.  (Seeded change C03-f replaces the range by "all particles" in TRACE.) -/
+theorem c03_hybrid_jump_lone_testparticle (dt : K) (mv : List (K × K)) (xs : List K) :
+    mercuriusJump false 0 dt m0 mv xs = xs ∧ traceJump false 0 dt m0 mv xs = xs := by
+  obtain ⟨h1, h2⟩ := c03_hybrid_jump_shift (m0 := m0) false 0 dt mv xs
+  rw [h1, h2]
+  simp
+
 end mass
 
 /-! ### termination -/
